@@ -36,7 +36,7 @@ def build(rng, casedir, index, tier, stable=None, size=None, nrec=None, tags="sa
     for i, wk in enumerate(walks):
         extra = tags if tags != "safe" else rng.choice(["safe", "grammar_plain"])
         if long_lines and rng.random() < 0.3:
-            extra = [f"zl:Z:{'x' * rng.randint(500, 3000)}"]
+            extra = [f"zl:Z:{'x' * (rng.randint(500, 3000) if rng.random() < 0.9 else rng.randint(66000, 90000))}", "NM:i:3"]
         recs.append(ggaf.make_record(g, rng, wk, f"r{index}_{i}", offsets=offsets, tags=extra, name_space=name_space and rng.random() < 0.3))
     lines = [r.line for r in recs]
     if w.stable:
